@@ -670,8 +670,10 @@ static iwrc _checkpoint_exl(struct iwal *wal, uint64_t *tsp, bool no_fixpoint) {
     WBSAVEPOINT wb = {
       .id = WOP_SAVEPOINT
     };
-    rc = iwp_current_time_ms(&wb.ts, false);
+    uint64_t ts; // wb is packed: do not hand out the address of its member
+    rc = iwp_current_time_ms(&ts, false);
     RCGO(rc, finish);
+    wb.ts = ts;
     rc = _write_wl(wal, &wb, sizeof(wb), 0, 0);
     RCGO(rc, finish);
   }
@@ -769,8 +771,10 @@ iwrc _savepoint_exl(struct iwal *wal, uint64_t *tsp, bool sync) {
   WBSAVEPOINT wbfp = {
     .id = WOP_SAVEPOINT
   };
-  iwrc rc = iwp_current_time_ms(&wbfp.ts, false);
+  uint64_t ts; // wbfp is packed: do not hand out the address of its member
+  iwrc rc = iwp_current_time_ms(&ts, false);
   RCRET(rc);
+  wbfp.ts = ts;
   rc = _write_wl(wal, &wbfp, sizeof(wbfp), 0, 0);
   RCRET(rc);
   rc = _flush_wl(wal, sync);
